@@ -408,6 +408,7 @@ func init() {
 		}
 		var updEvents, noopCalls, failedCalls, events int64
 		cfg := e1.Config{
+			ReplayNames: c.ReplayCalls(),
 			Alphabet: alpha,
 			Depth:    depth,
 			Key:      func(w *world.World) string { return w.Key() },
